@@ -1,6 +1,75 @@
-import RucteModel
+import RucteModel.Emit
+import RucteProofs.Sig
 
-/-! # C13 — placeholder: theorems are added as they are proved. -/
+/-!
+# C13 — declarations reach the generated signature unchanged
+
+`fnHeader t name` = everything `write_rust` prints before the body; `printParam` = the printed
+form of one declared parameter (after the repair: only a parameter whose text after the colon is
+exactly `Content` becomes a block parameter); `printParamPinned` = the defective substring
+replacement of the pinned tree, kept with its machine-checked counterexamples.
+-/
 namespace Ructe.C13
-theorem placeholder : True := trivial
+open Nom
+
+/-- a parameter `head ++ "Content"` whose head ends (white space aside) in the colon is a block parameter -/
+theorem printParam_content (head : Bytes) (h : lastNonWs head = some 58) :
+    printParam (head ++ contentType) = head ++ contentImpl := by
+  rw [printParam_append_content, if_pos h]
+
+/-- every other parameter is printed verbatim -/
+theorem printParam_other (a : Bytes) (h : ∀ head, a = head ++ contentType → lastNonWs head ≠ some 58) :
+    printParam a = a := by
+  unfold printParam
+  split
+  · next head hs =>
+    rw [if_neg (h head (eq_append_of_stripSuffix hs))]
+  · rfl
+
+/-- in particular: any declared type that does not *end* in `Content` -/
+theorem printParam_no_suffix (a : Bytes) (h : stripSuffix contentType a = none) : printParam a = a := by
+  unfold printParam
+  rw [h]
+
+/-- `name: Content` with any white space around the colon is converted, keeping name and layout -/
+theorem content_exact (name ws₁ ws₂ : Bytes) (h₂ : ws₂.all isWs = true) :
+    printParam (name ++ ws₁ ++ [58] ++ ws₂ ++ contentType) = name ++ ws₁ ++ [58] ++ ws₂ ++ contentImpl := by
+  rw [printParam_append_content, if_pos (lastNonWs_concat_ws _ 58 isWs_colon h₂)]
+
+/-- a type that merely ends in the word (`MyContent`, `&Content`, `Vec<Content>` does not even end in it,
+`dyn Content`, `&'a Content`): the byte before the word, white space aside, is not the colon ⇒ verbatim -/
+theorem content_suffix_only (pre : Bytes) (c : UInt8) (ws : Bytes) (hc : c ≠ 58) (hcw : isWs c = false)
+    (hw : ws.all isWs = true) :
+    printParam (pre ++ [c] ++ ws ++ contentType) = pre ++ [c] ++ ws ++ contentType := by
+  rw [printParam_append_content, lastNonWs_concat_ws _ c hcw hw, if_neg]
+  intro h
+  exact hc (Option.some.inj h)
+
+/-- the signature: fixed prelude, the `use` lines verbatim and in order, the function name, the
+lifetime list verbatim, the sink first, then exactly the declared parameters in declared order -/
+theorem signature_shape (t : Template) (name : Bytes) :
+    fnHeader t name =
+      str "use std::io::{self, Write};\n#[allow(clippy::useless_attribute, unused)]\nuse super::{Html,ToHtml};\n" ++
+      (t.preamble.map (fun l => l ++ str ";\n")).flatten ++
+      str "\n#[allow(clippy::used_underscore_binding)]\npub fn " ++ name ++ str "<" ++ t.typeArgs ++
+      (if t.typeArgs = [] then [] else str ", ") ++ str "W>(\n  #[allow(unused_mut)] mut _ructe_out_: W,\n" ++
+      (t.args.map (fun a => str "  " ++ printParam a ++ str ",\n")).flatten ++
+      str ") -> io::Result<()>\nwhere W: Write {\n" := by
+  simp only [fnHeader, List.flatMap_def]
+
+/-- the generated code is the signature followed by the body and the closing `Ok(())` -/
+theorem writeRust_starts_with_header (ue : Nat → Bool) (t : Template) (name : Bytes) :
+    ∃ rest, writeRust ue t name = fnHeader t name ++ rest := by
+  exact ⟨codeOfList ue t.body ++ str "Ok(())\n}\n", by simp only [writeRust, List.append_assoc]⟩
+
+/-- the pinned code mangled `ContentType` and left `b:Content` unconverted (finding #5, machine-checked) -/
+theorem pinned_counterexamples :
+    printParamPinned [97, 58, 32, 67, 111, 110, 116, 101, 110, 116, 84, 121, 112, 101] ≠
+      [97, 58, 32, 67, 111, 110, 116, 101, 110, 116, 84, 121, 112, 101] ∧
+    printParamPinned [98, 58, 67, 111, 110, 116, 101, 110, 116] = [98, 58, 67, 111, 110, 116, 101, 110, 116] ∧
+    printParam [97, 58, 32, 67, 111, 110, 116, 101, 110, 116, 84, 121, 112, 101] =
+      [97, 58, 32, 67, 111, 110, 116, 101, 110, 116, 84, 121, 112, 101] ∧
+    printParam [98, 58, 67, 111, 110, 116, 101, 110, 116] = [98, 58] ++ contentImpl := by
+  decide +kernel
+
 end Ructe.C13
